@@ -30,7 +30,7 @@ CLASSES = {
     "RsiEbFunction": dict(kind="f", params=[{"mu": 0.1, "L": 1.0}, {"mu": 0.5, "L": 1.0}, {"mu": 0.5, "L": 2.0}], step="gd_rsi", metrics=["dist"]),
     "ConvexIndicatorFunction": dict(kind="f", params=[{"D": INF}, {"D": 1.0}, {"D": 2.0}], step="prox", metrics=["dist"]),
     "ConvexSupportFunction": dict(kind="f", params=[{"M": INF}, {"M": 1.0}, {"M": 2.0}], step="prox", metrics=["dist", "fval"]),
-    "BlockSmoothConvexFunction": dict(kind="f", params=[{"L": [1.0, 2.0]}, {"L": [1.0]}, {"L": [1.0, 2.0, 4.0]}], step="block",
+    "BlockSmoothConvexFunction": dict(kind="f", params=[{"L": [1.0, 2.0]}, {"L": [1.0]}, {"L": [1.0, 2.0, 4.0]}, {"L": [1.0, 1.0]}], step="block",
                                       metrics=["fval", "dist"]),
     "SmoothStronglyConvexQuadraticFunction": dict(kind="f", params=[{"mu": 0.1, "L": 1.0}, {"mu": 0.0, "L": 2.0}], step="gd",
                                                   metrics=["fval", "dist", "grad"]),
